@@ -14,7 +14,7 @@ PROPS["C08"] = dict(
         "c08_accept_public_len2": dict(cap=300),
         "c08_core_2bounds_1obs": dict(cap=600),
         "c08_core_2bounds_2obs": dict(cap=1500, tier="thorough"),
-        "c08_count_1bound_2obs": dict(cap=1500, tier="thorough"),
+        "c08_count_1bound_2obs": dict(cap=1500, tier="experimental"),
         "c08_count_concrete_2obs": dict(cap=1500, tier="thorough"),
         "c08_count_local_2bounds_2obs": dict(cap=1500, tier="experimental"),
         "c08_linear_buckets": dict(cap=1200, tier="thorough"),
@@ -200,14 +200,14 @@ PROPS["C02"] = dict(
     hosts={"histogram": ["c02.rs"]},
     cfgs=["prometheus_verif_sync"],
     env={"PROMETHEUS_VERIF_K": "2"},
-    jobs=3,
-    mem_gb=40,
+    jobs=1,
+    mem_gb=50,
     harnesses={
         "c02_s1_observe_vs_collect": dict(cap=3600),
         "c02_s2_two_observes_prefix_closed": dict(cap=7200, tier="experimental"),
         "c02_s3_two_observers_vs_collect": dict(cap=7200, tier="experimental"),
         "c02_s4_two_collectors": dict(cap=7200, tier="experimental"),
-        "c02_s5_two_collectors_after_observation": dict(cap=5400, tier="thorough", flags=["--no-memory-safety-checks", "--no-overflow-checks"]),
+        "c02_s5_two_collectors_after_observation": dict(cap=5400, tier="thorough"),
         "c03_batch_flush_three_collects": dict(cap=10800, tier="experimental"),
     },
     functions=["HistogramCore::observe", "HistogramCore::proto", "ShardAndCount::{inc, inc_by, flip, get}", "AtomicU64::{inc_by, inc_by_with_ordering, swap, compare_exchange_weak}", "AtomicF64::{inc_by, swap}"],
